@@ -271,7 +271,7 @@ func main() {
 		},
 		Run: run,
 		Floors: map[string]int64{"histories": 40, "messages_folded": 5000, "state_comparisons": 80, "batches_revert": 50,
-			"batches_spurious-delete": 50, "batches_catchup": 50, "batches_dup": 50, "async_runs": 3, "final_routes": 50, "final_policies": 50},
+			"batches_spurious-delete": 50, "batches_catchup": 50, "batches_dup": 50, "batches_profile-flap": 30, "async_runs": 3, "final_routes": 50, "final_policies": 50},
 		CaseTimeout: 180 * time.Second,
 	})
 }
